@@ -444,6 +444,8 @@ def run(P, rep, tier):
     r_typing_relation(P, rep)
     from ..lib_c20ret import r_return_shape
     r_return_shape(P, rep)          # R20.16: the operand the parser gives a return node has the x87 class of the function's return type
+    from ..lib_c20init import r_initialiser_trees
+    r_initialiser_trees(P, rep)     # R20.18: the comma chains the parser builds for partially initialised objects, typed by add_type
     rep.rule('R20.7', 'every gen_addr arm: machine-stack effect 0 and x87 effect 0 (an address is left in %rax only), assuming the contract of its children; an operand evaluated only for its side effects is discarded there as well', floor=5)
     ahandled = expr_kinds_handled(cg, 'gen_addr')
     if len(ahandled) < 4:
@@ -560,6 +562,7 @@ def _r_calls(cg, P, rep, tier):
             if entry == 'gen_expr' and ret in ('int', 'ldouble', 's_ll', 's_l3'):
                 continue
             _call(cg, B, rep, ['int'], ret, 0, entry, where)
+    _r_call_exits(cg, B, rep, where)
     # callee side: `return v;` of every aggregate return class leaves on the x87 stack exactly what the caller takes from it
     for t in agg:
         key = '%s:ND_RETURN:returns-%s:x87' % (U, t)
@@ -592,10 +595,14 @@ def r_call_value(cg, P, rep):
 REL = {
     'ND_COND': (('then', 'els'), lambda n, a, b: (n == a == b) or (n == 'void' and 'void' in (a, b)),
                 'both arms have the class of the node, or one arm is void and so is the node'),
-    'ND_COMMA': (('lhs', 'rhs'), lambda n, a, b: n == b, 'the node has the class of its right operand'),
+    # 'none': an operand without a type - the ND_NULL_EXPR the parser puts into the comma chains of initialisers (elements without an
+    # initialiser), VLA size computations, empty initialisers: gen_expr leaves no value for it, so the node must not announce one on the x87 stack
+    'ND_COMMA': (('lhs', 'rhs'), lambda n, a, b: (n == b) if b != 'none' else n != 'ld',
+                 'the node has the class of its right operand; when that operand is an untyped null expression (which leaves no value) the node is not long double'),
     'ND_ASSIGN': (('lhs', 'rhs'), lambda n, a, b: n == a == b, 'node, left and (converted) right operand have the same class'),
 }
 REL_TYPES = ('void', 'bool', 'int', 'long', 'double', 'ldouble', 'ptr', 'struct')
+UNTYPED = 'untyped'        # operand "type" of the comma relation: a null expression as the parser builds it (no type; add_type gives it none)
 
 
 def r_typing_relation(P, rep):
@@ -614,7 +621,15 @@ def r_typing_relation(P, rep):
         k = t.fields.get('kind')
         return 'ld' if k == T.E['TY_LDOUBLE'] else ('void' if k == T.E['TY_VOID'] else ('other' if isinstance(k, int) else None))
 
+    def cls0(it, t):
+        t = it.settle(t) if isinstance(t, View) else t
+        return 'none' if (t is None or (isinstance(t, int) and t == 0)) else cls(it, t)
+
     def leaf(it, tn, label):
+        if tn == UNTYPED:
+            n = Obj('Node', lazy=False, label=label)
+            n.fields.update({'kind': T.E['ND_NULL_EXPR'], 'ty': 0, 'tok': Obj('Token', lazy=True, label=label + '.tok')})
+            return n
         if tn == 'struct':
             n = typed_leaf(it, T, 'int', label)
             st = Obj('Type', lazy=True, label='T:struct')
@@ -623,13 +638,16 @@ def r_typing_relation(P, rep):
             return n
         return typed_leaf(it, T, tn, label)
     for kind, (flds, pred, text) in sorted(REL.items()):
-        for a in REL_TYPES:
-            for b in REL_TYPES:
+        ops = REL_TYPES + ((UNTYPED,) if kind == 'ND_COMMA' else ())
+        for a in ops:
+            for b in ops:
                 if kind == 'ND_ASSIGN' and ('void' in (a, b) or (('struct' in (a, b)) and a != b)):
                     continue        # not an assignment of C (constraint violation)
                 if kind == 'ND_COND' and ('struct' in (a, b)) and a != b and 'void' not in (a, b):
                     continue
                 it = T.interp(opaque=['error_tok'])
+                if UNTYPED in (a, b):
+                    it.rec_limit = 8          # add_type descends into the untyped operand
                 box = {}
 
                 def mk(ctx, kind=kind, a=a, b=b):
@@ -658,7 +676,8 @@ def r_typing_relation(P, rep):
                     n = c.node
                     kids = [n.fields.get(f) for f in flds]
                     kids = [it.settle(k) if isinstance(k, View) else k for k in kids]
-                    tri = (cls(it, n.fields.get('ty')),) + tuple(cls(it, k.fields.get('ty')) if isinstance(k, Obj) else None for k in kids)
+                    cf = cls0 if UNTYPED in (a, b) else cls
+                    tri = (cf(it, n.fields.get('ty')),) + tuple(cf(it, k.fields.get('ty')) if isinstance(k, Obj) else None for k in kids)
                     if None in tri:
                         bad = 'undecided'; break
                     if not pred(*tri):
@@ -668,6 +687,37 @@ def r_typing_relation(P, rep):
                 rep.ob('R20.11', key, bad is None,
                        '%s with operands of type (%s, %s): after add_type the node is of class %s and its operands (%s, %s) of classes (%s, %s); the stack-effect rule of this kind (R20.1) is proved for: %s. '
                        'A long double operand that does not share the node\'s class is left on / missing from the x87 stack' % ((kind, a, b) + ((bad[0], flds[0], flds[1], bad[1], bad[2]) if bad else ('', '', '', '', '')) + (text,)), where=where)
+
+    # kinds for which gen_expr leaves no value at all (R20.1 proves their arms for a node that is not long double): add_type must not make
+    # them long double, or every discard of such a node pops an x87 value that was never pushed
+    for kind in ('ND_NULL_EXPR', 'ND_MEMZERO'):
+        key = 'type.c:add_type:%s:not-long-double' % kind
+        if kind not in T.E:
+            continue
+        it = T.interp(opaque=['error_tok'])
+        it.rec_limit = 8
+
+        def mk0(ctx, kind=kind):
+            it.ctx = ctx
+            n = Obj('Node', lazy=False, label='node')
+            n.fields.update({'kind': T.E[kind], 'ty': 0, 'tok': Obj('Token', lazy=True, label='tok')})
+            if kind == 'ND_MEMZERO':
+                v = Obj('Obj', lazy=True, label='var')
+                v.fields['ty'] = T.make(it, 'ldouble')
+                n.fields['var'] = v
+            ctx.node = n
+            return [n]
+        try:
+            allp = it.explore('add_type', mk0)
+        except AnalysisBroken as e:
+            rep.undecided('R20.11', key, 'add_type is not explorable here: %s' % e, where=where); continue
+        outs = [(c, o) for c, o in allp if o[0] == 'ret']
+        if not outs:
+            rep.undecided('R20.11', key, 'add_type has no returning path on this node', where=where); continue
+        got = {cls0(it, c.node.fields.get('ty')) for c, o in outs}
+        if None in got:
+            rep.undecided('R20.11', key, 'the type after add_type is not concrete', where=where); continue
+        rep.ob('R20.11', key, 'ld' not in got, 'add_type makes a %s node long double, but gen_expr leaves no value for it: gen_discard (initialiser chains, expression statements) pops %%st(0) from an empty x87 stack' % kind, where=where)
 
     # statement expression: the node has the type of the expression of its last statement (whatever precedes it)
     for a in REL_TYPES:
@@ -902,7 +952,7 @@ def _builder_ok(P, pu, fname):
         return None
 
 
-def _call(cg, B, rep, types, ret, depth0, entry, where):
+def _call(cg, B, rep, types, ret, depth0, entry, where, rule='R20.5'):
     from .c06 import run_caller
     from ..x86 import Unknown
     key = '%s:ND_FUNCALL:(%s)->%s/depth%d' % (U, ','.join(types), ret, depth0)
@@ -915,24 +965,66 @@ def _call(cg, B, rep, types, ret, depth0, entry, where):
         # for the call takes off more than it put on (a definite imbalance, not a limit of the analysis)
         m = str(e)
         if 'x87 pop from empty abstract stack' in m:
-            rep.ob('R20.5', key + ':x87', False, 'the sequence emitted for the call pops an x87 value that was never pushed (the x87 stack underflows)', where=where)
+            rep.ob(rule, key + ':x87', False, 'the sequence emitted for the call pops an x87 value that was never pushed (the x87 stack underflows)', where=where)
         elif 'pop from an empty abstract stack' in m or 'beyond the abstract stack' in m:
-            rep.ob('R20.5', key, False, 'the sequence emitted for the call takes more off the machine stack than it pushed for it (%s): the pops and the release after the call do not match what was pushed for the arguments, %%rsp ends above its value before the call' % m, where=where)
+            rep.ob(rule, key, False, 'the sequence emitted for the call takes more off the machine stack than it pushed for it (%s): the pops and the release after the call do not match what was pushed for the arguments, %%rsp ends above its value before the call' % m, where=where)
         else:
-            rep.undecided('R20.5', key, m, where=where)
+            rep.undecided(rule, key, m, where=where)
         return
     tmap = {'a%d' % i: t for i, t in enumerate(types)}
     _depth_vs_rsp(entry, 'ND_FUNCALL', ctx, tr, linearise(tr), depth0,
                   labfn=lambda l: 'the-callee' if l == 'fn' else ('an-argument-of-type-' + tmap[l] if l in tmap else l))
     dd = ctx.globals.get('depth')
     ok = len(s.stack) == 0 and dd == depth0
-    rep.ob('R20.5', key, ok, 'after the call %d pushed slot(s) are still on the stack and `depth` is %r (was %d): each evaluation of this call leaks stack' % (len(s.stack), dd, depth0), where=where, facts={'trace': tr.text()[-12:]})
+    rep.ob(rule, key, ok, 'after the call %d pushed slot(s) are still on the stack and `depth` is %r (was %d): each evaluation of this call leaks stack' % (len(s.stack), dd, depth0), where=where, facts={'trace': tr.text()[-12:]})
     want87 = 1 if (ret == 'ldouble' and entry == 'gen_expr') else 0
     # x87: a long double / class X87 result is left in st0 by the callee (('retst', n) in the machine); every argument must have been popped,
     # and the result must be gone unless it is the value of the expression
     left = [x for x in s.st if not (isinstance(x, tuple) and x[0] == 'retst')]
     nres = len(s.st) - len(left)
-    rep.ob('R20.5', key + ':x87', not left and nres == want87, 'after the call %d long double argument value(s) are still on the x87 stack and %d result value(s) (expected %d)' % (len(left), nres, want87), where=where)
+    rep.ob(rule, key + ':x87', not left and nres == want87, 'after the call %d long double argument value(s) are still on the x87 stack and %d result value(s) (expected %d)' % (len(left), nres, want87), where=where)
+
+
+# every scalar type class the call arm can tell apart by node->ty (kind and signedness): each may be an exit of its own from the arm
+SCALAR_RETS = ('bool', 'char', 'uchar', 'short', 'ushort', 'int', 'uint', 'long', 'ulong', 'enum', 'ptr', 'float', 'double', 'ldouble')
+# argument lists with something passed in memory for each reason there is (register exhaustion GP / SSE, class X87, class MEMORY), with an
+# odd and an even number of slots, and one without
+MEM_SIGS = (['long'] * 7, ['long'] * 8, ['double'] * 9, ['ldouble'], ['long'] * 6 + ['s_l3'], ['int'])
+
+
+class _scalars:
+    """scalar type names of lib_types this module uses as return types in addition to the ABI vocabulary (inside a `with` block only)"""
+    EXTRA = {'ushort': 2, 'enum': 4}
+
+    def __enter__(self):
+        from ..lib_abi import SCALARS
+        self.added = [k for k in self.EXTRA if k not in SCALARS]
+        for k in self.added:
+            SCALARS[k] = self.EXTRA[k]
+        return self
+
+    def __exit__(self, *a):
+        from ..lib_abi import SCALARS
+        for k in self.added:
+            SCALARS.pop(k, None)
+        return False
+
+
+def _r_call_exits(cg, B, rep, where):
+    """R20.5 runs the call sequence for a few result types. The call arm of gen_expr branches on the type of the RESULT after the call instruction
+    (narrow results are normalised, aggregates copied) and each branch may leave the arm on its own: what was pushed for the call has to be
+    released on every one of them. The emitted sequence is followed to the end of the arm for every scalar result type class crossed with
+    every reason an argument is passed in memory, at both parities of `depth`; `depth` alone cannot show a missing release (the arm
+    decrements it separately from emitting the instruction)."""
+    rep.rule('R20.17', 'the call arm releases everything it pushed (memory arguments, alignment padding) on EVERY exit it has: for every scalar type class of the result (bool, signed/unsigned char, short, int, long, enum, pointer, float, double, long double) crossed with every kind of memory-passed argument list and both stack parities, the emitted sequence followed to the end of the arm leaves %rsp where it was before the call and `depth` at its old value', floor=150)
+    with _scalars():
+        for ret in SCALAR_RETS:
+            for types in MEM_SIGS:
+                for depth0 in (0, 1):
+                    if ret in ('int', 'ldouble') and types in (['long'] * 7, ['long'] * 8, ['double'] * 9, ['ldouble'], ['int']):
+                        continue        # R20.5 has these
+                    _call(cg, B, rep, types, ret, depth0, 'gen_expr', where, rule='R20.17')
+
 
 
 def expr_kinds_handled(cg, fname='gen_expr'):
